@@ -82,14 +82,28 @@ def dec_label(e, kind="f"):
     raise ValueError(e)
 
 
-def label_array(labels, kind):
+def ckind(k):
+    """dtype kind as the model knows it (unsigned integers are integers)"""
+    return "i" if k == "u" else k
+
+
+def label_array(labels, kind, ldtype=None):
     """encoded labels -> numpy array of the given kind (never through the list constructor of
-    DimArray, see env gotchas)"""
+    DimArray, see env gotchas); `ldtype` asks for a narrower / unsigned dtype of the same kind when every
+    label is exactly representable in it"""
     vals = [dec_label(l, kind) for l in labels]
     if kind == "i":
-        return np.array(vals, dtype=np.int64).reshape(len(vals))
+        out = np.array(vals, dtype=np.int64).reshape(len(vals))
+        if ldtype and ldtype.startswith(("uint", "int")) and len(vals):
+            info = np.iinfo(ldtype)
+            if out.min() >= info.min and out.max() <= info.max:
+                out = out.astype(ldtype)
+        return out
     if kind == "f":
-        return np.array(vals, dtype=np.float64).reshape(len(vals))
+        out = np.array(vals, dtype=np.float64).reshape(len(vals))
+        if ldtype == "float32" and len(vals) and np.all(out.astype(np.float32).astype(np.float64) == out):
+            out = out.astype(np.float32)
+        return out
     out = np.empty(len(vals), dtype=object)
     for i, v in enumerate(vals):
         out[i] = v
@@ -170,7 +184,7 @@ def make_values(shape, vkind, k=0, nan_at=()):
 
 
 def build_axis(ad, toks=None):
-    ax = Axis(label_array(ad["labels"], ad["kind"]), ad["name"])
+    ax = Axis(label_array(ad["labels"], ad["kind"], ad.get("ldtype")), ad["name"])
     for kv in ad.get("attrs_py", {}).items():
         ax.attrs[kv[0]] = kv[1]
     return ax
@@ -183,6 +197,11 @@ def build_array(ad, k=0, toks=None):
     vals = make_values(shape, ad.get("vkind", "f"), k, ad.get("nan_at", ()))
     if "values" in ad:
         vals = np.array(ad["values"], dtype={"f": float, "i": np.int64, "b": bool, "O": object}[ad.get("vkind", "f")]).reshape(shape)
+    vd = ad.get("vdtype")
+    if vd and vals.dtype.kind in "if" and np.dtype(vd).kind == vals.dtype.kind and np.all(vals.astype(vd).astype(vals.dtype) == vals, where=~np.isnan(vals) if vals.dtype.kind == "f" else True):
+        vals = vals.astype(vd)          # narrower dtype of the same kind (every value exactly representable)
+    if ad.get("order") == "F" and vals.ndim >= 2:
+        vals = np.asfortranarray(vals)  # Fortran-contiguous memory layout, same logical array
     a = DimArray(vals, axes=axes)
     for key, v in ad.get("attrs_py", {}).items():
         a.attrs[key] = v
@@ -211,7 +230,7 @@ def obs_axis(ax, toks=None):
                 "attrs": toks.enc(ax.attrs) if toks else [],
                 "tuples": [[str(x) for x in t] if isinstance(t, tuple) else [str(t)] for t in ax.values.tolist()]}
     vals = ax.values
-    return {"name": ax.name, "kind": vals.dtype.kind, "labels": [enc_label(v) for v in vals.tolist()],
+    return {"name": ax.name, "kind": ckind(vals.dtype.kind), "labels": [enc_label(v) for v in vals.tolist()],
             "members": [], "attrs": toks.enc(ax.attrs) if toks else []}
 
 
@@ -249,7 +268,7 @@ def obs_array(r, toks=None):
     if isinstance(r, DimArray):
         vals = np.asarray(r.values)
         return {"dims": list(r.dims), "axes": [obs_axis(ax, toks) for ax in r.axes],
-                "shape": list(vals.shape), "vkind": vals.dtype.kind,
+                "shape": list(vals.shape), "vkind": ckind(vals.dtype.kind),
                 "attrs": toks.enc(r.attrs) if toks else [],
                 "values": [canon_value(v) for v in vals.reshape(-1).tolist()] if vals.dtype.kind != "O"
                           else [canon_value(v) for v in vals.reshape(-1)],
@@ -258,7 +277,7 @@ def obs_array(r, toks=None):
     v = r
     if isinstance(r, np.ndarray) and r.ndim == 0:
         v = r[()]
-    kind = np.asarray(v).dtype.kind if not isinstance(v, str) else "O"
+    kind = ckind(np.asarray(v).dtype.kind) if not isinstance(v, str) else "O"
     return {"dims": [], "axes": [], "shape": [], "vkind": kind, "attrs": None,
             "values": [canon_value(v if not isinstance(v, np.generic) else v.item())], "scalar": True}
 
